@@ -40,8 +40,13 @@ def _insertion_rules(ctx: Ctx) -> None:
 
 
 # further rule groups a property rests on although they live in another property's module
+def _load_entry_rules(ctx: Ctx) -> None:
+    from .c13 import _entry
+    _entry(ctx)
+
+
 RULE_DEPS = {
-    "C12": [_normaliser_rules, _insertion_rules],
+    "C12": [_normaliser_rules, _insertion_rules, _load_entry_rules],
     "C13": [_normaliser_rules, _insertion_rules],
 }
 
@@ -332,6 +337,8 @@ def dependency_closure(ctx: Ctx) -> None:
     from ..engines.structure import misc_hazard_rules
     misc_hazard_rules(sub, reach | set(roots))
     check_tables_immutable(sub, "IMMUT")
+    from ..engines.structure import process_state_rule
+    process_state_rule(sub, "MEMO")
     for o in sub.obligations:
         ctx.obligations.append(o)
     for f in sub.findings:
